@@ -80,8 +80,9 @@ def recfn_axioms(ex, groups):
         from .expr import coerce_to
         base = coerce_to(Eval(ex, State(), True, bound).expr(ex.parse_clause(rf["base"])), rt)
         step = coerce_to(Eval(ex, State(), True, bound).expr(ex.parse_clause(rf["step"])), rt)
-        out.append(z3.ForAll(cs, z3.Implies(on <= 0, f(*cs) == base.z), patterns=[f(*cs)]))
-        out.append(z3.ForAll(cs, z3.Implies(on > 0, f(*cs) == step.z), patterns=[f(*cs)]))
+        bw = Eval(ex, State(), True, bound).boolean(ex.parse_clause(rf.get("base_when") or f"{rf['on']} <= 0"))
+        out.append(z3.ForAll(cs, z3.Implies(bw, f(*cs) == base.z), patterns=[f(*cs)]))
+        out.append(z3.ForAll(cs, z3.Implies(z3.Not(bw), f(*cs) == step.z), patterns=[f(*cs)]))
     return out
 
 
